@@ -140,7 +140,7 @@ func (s *raceSink) observer() ro.Observer[int] {
 	)
 }
 
-func sinkOf[T any]() ro.Observer[T] {
+func raceSinkOf[T any]() ro.Observer[T] {
 	var n int64
 	return ro.NewObserver(
 		func(T) { atomic.AddInt64(&n, 1) },
@@ -151,7 +151,7 @@ func sinkOf[T any]() ro.Observer[T] {
 
 // goSource: a safe observable whose values come from a goroutine of its own; completes after n
 // values (n < 0: never) unless torn down first
-func goSource(n int, yield bool) ro.Observable[int] {
+func raceGoSource(n int, yield bool) ro.Observable[int] {
 	return ro.NewObservableWithContext(func(ctx context.Context, dest ro.Observer[int]) ro.Teardown {
 		stop := make(chan struct{})
 		var once sync.Once
@@ -174,7 +174,7 @@ func goSource(n int, yield bool) ro.Observable[int] {
 }
 
 // same, built with the unsafe constructor (what single-source operators expect below them)
-func goSourceUnsafe(n int) ro.Observable[int] {
+func raceGoSourceUnsafe(n int) ro.Observable[int] {
 	return ro.NewUnsafeObservableWithContext(func(ctx context.Context, dest ro.Observer[int]) ro.Teardown {
 		stop := make(chan struct{})
 		var once sync.Once
@@ -193,7 +193,7 @@ func goSourceUnsafe(n int) ro.Observable[int] {
 	})
 }
 
-func goErrSource(n int) ro.Observable[int] {
+func raceGoErrSource(n int) ro.Observable[int] {
 	return ro.NewObservableWithContext(func(ctx context.Context, dest ro.Observer[int]) ro.Teardown {
 		go func() {
 			for i := 0; i < n; i++ {
@@ -205,7 +205,7 @@ func goErrSource(n int) ro.Observable[int] {
 	})
 }
 
-func waitWG(wg *sync.WaitGroup) {
+func raceWaitWG(wg *sync.WaitGroup) {
 	ch := make(chan struct{})
 	go func() { wg.Wait(); close(ch) }()
 	select {
@@ -214,16 +214,16 @@ func waitWG(wg *sync.WaitGroup) {
 	}
 }
 
-func spin(r *rand.Rand) int { return r.Intn(40) }
+func raceSpin(r *rand.Rand) int { return r.Intn(40) }
 
-func pause(k int) {
+func racePause(k int) {
 	for i := 0; i < k; i++ {
 		runtime.Gosched()
 	}
 }
 
 // run fns concurrently, released together
-func together(fns ...func()) {
+func raceTogether(fns ...func()) {
 	var wg sync.WaitGroup
 	start := make(chan struct{})
 	for _, f := range fns {
@@ -236,7 +236,7 @@ func together(fns ...func()) {
 		}(f)
 	}
 	close(start)
-	waitWG(&wg)
+	raceWaitWG(&wg)
 }
 
 // ---------------------------------------------------------------- subscription / subscriber
@@ -245,15 +245,15 @@ func raceSc_subscription(r *rand.Rand, rounds int) {
 	for i := 0; i < rounds; i++ {
 		var ran int64
 		s := ro.NewSubscription(func() { atomic.AddInt64(&ran, 1) })
-		k := spin(r)
-		together(
+		k := raceSpin(r)
+		raceTogether(
 			func() {
 				for j := 0; j < 8; j++ {
 					s.Add(func() { atomic.AddInt64(&ran, 1) })
 				}
 			},
 			func() { s.AddUnsubscribable(ro.NewSubscription(func() { atomic.AddInt64(&ran, 1) })) },
-			func() { pause(k); s.Unsubscribe() },
+			func() { racePause(k); s.Unsubscribe() },
 			func() { s.Unsubscribe() },
 			func() {
 				for j := 0; j < 8; j++ {
@@ -294,13 +294,13 @@ func raceSc_safeSubscriber(r *rand.Rand, rounds int) {
 				}
 			})
 		}
-		k := spin(r)
+		k := raceSpin(r)
 		fns = append(fns,
-			func() { pause(k); sub.Unsubscribe() },
+			func() { racePause(k); sub.Unsubscribe() },
 			func() { _ = sub.IsClosed(); _ = sub.HasThrown(); _ = sub.IsCompleted() },
 			func() { sub.Add(func() {}) },
 		)
-		together(fns...)
+		raceTogether(fns...)
 	}
 }
 
@@ -321,11 +321,11 @@ func raceSc_safeObservable(r *rand.Rand, rounds int) {
 					}
 				}(p)
 			}
-			return func() { waitWG(&wg) }
+			return func() { raceWaitWG(&wg) }
 		})
-		sub := obs.Subscribe(sinkOf[int]())
-		k := spin(r)
-		together(func() { pause(k); sub.Unsubscribe() }, func() { _ = sub.IsClosed() })
+		sub := obs.Subscribe(raceSinkOf[int]())
+		k := raceSpin(r)
+		raceTogether(func() { racePause(k); sub.Unsubscribe() }, func() { _ = sub.IsClosed() })
 	}
 }
 
@@ -334,7 +334,7 @@ func raceSc_safeObservable(r *rand.Rand, rounds int) {
 func raceSubject(r *rand.Rand, rounds int, mk func() ro.Subject[int], multi bool) {
 	for i := 0; i < rounds; i++ {
 		s := mk()
-		k := spin(r)
+		k := raceSpin(r)
 		endWithError := r.Intn(2) == 0
 		fns := []func(){
 			func() {
@@ -348,29 +348,35 @@ func raceSubject(r *rand.Rand, rounds int, mk func() ro.Subject[int], multi bool
 				}
 			},
 			func() {
-				sub := s.Subscribe(sinkOf[int]())
-				pause(k)
+				sub := s.Subscribe(raceSinkOf[int]())
+				racePause(k)
 				sub.Unsubscribe()
 			},
 			func() {
-				pause(k)
+				racePause(k)
 				if endWithError {
 					s.Error(errors.New("x"))
 				} else {
 					s.Complete()
 				}
 			},
-			func() { _ = s.HasObserver(); _ = s.CountObservers(); _ = s.IsClosed(); _ = s.HasThrown(); _ = s.IsCompleted() },
+			func() {
+				_ = s.HasObserver()
+				_ = s.CountObservers()
+				_ = s.IsClosed()
+				_ = s.HasThrown()
+				_ = s.IsCompleted()
+			},
 		}
 		if multi {
 			fns = append(fns, func() {
-				sub := s.Subscribe(sinkOf[int]())
+				sub := s.Subscribe(raceSinkOf[int]())
 				sub.Unsubscribe()
-				sub2 := s.Subscribe(sinkOf[int]())
+				sub2 := s.Subscribe(raceSinkOf[int]())
 				_ = sub2
 			})
 		}
-		together(fns...)
+		raceTogether(fns...)
 	}
 }
 
@@ -395,13 +401,13 @@ func raceSc_subjectUnicast(r *rand.Rand, rounds int) {
 // Connect, Subscribe and disconnect from different goroutines (ResetOnDisconnect is the default)
 func raceSc_connectable(r *rand.Rand, rounds int) {
 	for i := 0; i < rounds; i++ {
-		c := ro.Connectable(goSource(20, true))
-		k := spin(r)
-		together(
-			func() { sub := c.Connect(); pause(k); sub.Unsubscribe() },
-			func() { pause(k / 2); sub := c.Connect(); sub.Unsubscribe() },
-			func() { s := c.Subscribe(sinkOf[int]()); pause(k); s.Unsubscribe() },
-			func() { pause(k); s := c.Subscribe(sinkOf[int]()); s.Unsubscribe() },
+		c := ro.Connectable(raceGoSource(20, true))
+		k := raceSpin(r)
+		raceTogether(
+			func() { sub := c.Connect(); racePause(k); sub.Unsubscribe() },
+			func() { racePause(k / 2); sub := c.Connect(); sub.Unsubscribe() },
+			func() { s := c.Subscribe(raceSinkOf[int]()); racePause(k); s.Unsubscribe() },
+			func() { racePause(k); s := c.Subscribe(raceSinkOf[int]()); s.Unsubscribe() },
 		)
 	}
 }
@@ -409,15 +415,15 @@ func raceSc_connectable(r *rand.Rand, rounds int) {
 // no reset on disconnect: only `subscription` is rewritten
 func raceSc_connectableNoReset(r *rand.Rand, rounds int) {
 	for i := 0; i < rounds; i++ {
-		c := ro.ConnectableWithConfig(goSource(20, true), ro.ConnectableConfig[int]{
+		c := ro.ConnectableWithConfig(raceGoSource(20, true), ro.ConnectableConfig[int]{
 			Connector:         func() ro.Subject[int] { return ro.NewPublishSubject[int]() },
 			ResetOnDisconnect: false,
 		})
-		k := spin(r)
-		together(
-			func() { sub := c.Connect(); pause(k); sub.Unsubscribe() },
-			func() { sub := c.Connect(); pause(k); sub.Unsubscribe() },
-			func() { s := c.Subscribe(sinkOf[int]()); pause(k); s.Unsubscribe() },
+		k := raceSpin(r)
+		raceTogether(
+			func() { sub := c.Connect(); racePause(k); sub.Unsubscribe() },
+			func() { sub := c.Connect(); racePause(k); sub.Unsubscribe() },
+			func() { s := c.Subscribe(raceSinkOf[int]()); racePause(k); s.Unsubscribe() },
 		)
 	}
 }
@@ -430,11 +436,11 @@ func raceSc_connectableSyncSource(r *rand.Rand, rounds int) {
 			Connector:         func() ro.Subject[int] { return ro.NewPublishSubject[int]() },
 			ResetOnDisconnect: false,
 		})
-		k := spin(r) / 8
-		together(
+		k := raceSpin(r) / 8
+		raceTogether(
 			func() { c.Connect() },
-			func() { pause(k); c.Connect() },
-			func() { pause(2 * k); c.Connect() },
+			func() { racePause(k); c.Connect() },
+			func() { racePause(2 * k); c.Connect() },
 		)
 	}
 }
@@ -443,20 +449,20 @@ func raceSc_share(r *rand.Rand, rounds int) {
 	for i := 0; i < rounds; i++ {
 		subj := ro.NewPublishSubject[int]()
 		shared := ro.Pipe1(subj.AsObservable(), ro.Share[int]())
-		k := spin(r)
+		k := raceSpin(r)
 		n := 2 + r.Intn(3)
 		var fns []func()
 		for j := 0; j < n; j++ {
-			fns = append(fns, func() { s := shared.Subscribe(sinkOf[int]()); pause(k); s.Unsubscribe() })
+			fns = append(fns, func() { s := shared.Subscribe(raceSinkOf[int]()); racePause(k); s.Unsubscribe() })
 		}
 		fns = append(fns, func() {
 			for j := 0; j < 10; j++ {
 				subj.Next(j)
 			}
-			pause(k)
+			racePause(k)
 			subj.Complete()
 		})
-		together(fns...)
+		raceTogether(fns...)
 	}
 }
 
@@ -465,51 +471,51 @@ func raceSc_shareAsyncTerminal(r *rand.Rand, rounds int) {
 	for i := 0; i < rounds; i++ {
 		var src ro.Observable[int]
 		if r.Intn(2) == 0 {
-			src = goSource(r.Intn(2), false)
+			src = raceGoSource(r.Intn(2), false)
 		} else {
-			src = goErrSource(r.Intn(2))
+			src = raceGoErrSource(r.Intn(2))
 		}
 		shared := ro.Pipe1(src, ro.Share[int]())
-		k := spin(r) / 4
-		together(
-			func() { s := shared.Subscribe(sinkOf[int]()); pause(k); s.Unsubscribe() },
-			func() { pause(k); s := shared.Subscribe(sinkOf[int]()); s.Unsubscribe() },
-			func() { pause(2 * k); s := shared.Subscribe(sinkOf[int]()); s.Unsubscribe() },
+		k := raceSpin(r) / 4
+		raceTogether(
+			func() { s := shared.Subscribe(raceSinkOf[int]()); racePause(k); s.Unsubscribe() },
+			func() { racePause(k); s := shared.Subscribe(raceSinkOf[int]()); s.Unsubscribe() },
+			func() { racePause(2 * k); s := shared.Subscribe(raceSinkOf[int]()); s.Unsubscribe() },
 		)
 	}
 }
 
 func raceSc_shareReplay(r *rand.Rand, rounds int) {
 	for i := 0; i < rounds; i++ {
-		shared := ro.Pipe1(goSource(30, true), ro.ShareReplay[int](2))
-		k := spin(r)
-		together(
-			func() { s := shared.Subscribe(sinkOf[int]()); pause(k); s.Unsubscribe() },
-			func() { pause(k); s := shared.Subscribe(sinkOf[int]()); pause(k); s.Unsubscribe() },
-			func() { s := shared.Subscribe(sinkOf[int]()); s.Unsubscribe() },
+		shared := ro.Pipe1(raceGoSource(30, true), ro.ShareReplay[int](2))
+		k := raceSpin(r)
+		raceTogether(
+			func() { s := shared.Subscribe(raceSinkOf[int]()); racePause(k); s.Unsubscribe() },
+			func() { racePause(k); s := shared.Subscribe(raceSinkOf[int]()); racePause(k); s.Unsubscribe() },
+			func() { s := shared.Subscribe(raceSinkOf[int]()); s.Unsubscribe() },
 		)
 	}
 }
 
 // ---------------------------------------------------------------- teardown against a source callback
 
-func unsubWhileRunning[T any](r *rand.Rand, rounds int, mk func() ro.Observable[T]) {
+func raceUnsubWhileRunning[T any](r *rand.Rand, rounds int, mk func() ro.Observable[T]) {
 	for i := 0; i < rounds; i++ {
-		sub := mk().Subscribe(sinkOf[T]())
-		pause(1 + spin(r))
+		sub := mk().Subscribe(raceSinkOf[T]())
+		racePause(1 + raceSpin(r))
 		sub.Unsubscribe()
 	}
 }
 
 func raceSc_bufferWithCountTeardown(r *rand.Rand, rounds int) {
-	unsubWhileRunning(r, rounds, func() ro.Observable[[]int] {
-		return ro.Pipe1(goSourceUnsafe(-1), ro.BufferWithCount[int](3))
+	raceUnsubWhileRunning(r, rounds, func() ro.Observable[[]int] {
+		return ro.Pipe1(raceGoSourceUnsafe(-1), ro.BufferWithCount[int](3))
 	})
 }
 
 func raceSc_groupByTeardown(r *rand.Rand, rounds int) {
-	unsubWhileRunning(r, rounds, func() ro.Observable[ro.Observable[int]] {
-		return ro.Pipe1(goSourceUnsafe(-1), ro.GroupBy(func(v int) int { return v % 3 }))
+	raceUnsubWhileRunning(r, rounds, func() ro.Observable[ro.Observable[int]] {
+		return ro.Pipe1(raceGoSourceUnsafe(-1), ro.GroupBy(func(v int) int { return v % 3 }))
 	})
 }
 
@@ -518,9 +524,9 @@ func raceSc_groupByTeardown(r *rand.Rand, rounds int) {
 func raceSc_mergeMapSharedIndex(r *rand.Rand, rounds int) {
 	for i := 0; i < rounds; i++ {
 		p := ro.Pipe1(ro.Just(1, 2, 3, 4), ro.MergeMapI(func(v int, idx int64) ro.Observable[int] { return ro.Just(v) }))
-		together(
-			func() { p.Subscribe(sinkOf[int]()) },
-			func() { p.Subscribe(sinkOf[int]()) },
+		raceTogether(
+			func() { p.Subscribe(raceSinkOf[int]()) },
+			func() { p.Subscribe(raceSinkOf[int]()) },
 		)
 	}
 }
@@ -532,8 +538,8 @@ func raceSc_onErrorResumeNextReapply(r *rand.Rand, rounds int) {
 	for i := 0; i < rounds; i++ {
 		op := ro.OnErrorResumeNextWith(ro.Just(7))
 		p := op(ro.Just(1))
-		together(
-			func() { p.Subscribe(sinkOf[int]()) },
+		raceTogether(
+			func() { p.Subscribe(raceSinkOf[int]()) },
 			func() { _ = op(ro.Just(2)) },
 		)
 	}
@@ -546,23 +552,23 @@ func raceSc_zip(r *rand.Rand, rounds int) {
 		var obs ro.Observable[int]
 		switch r.Intn(3) {
 		case 0:
-			obs = ro.Pipe1(ro.Zip2(goSource(15, true), goSource(10, false)), ro.Map(func(t lo.Tuple2[int, int]) int { return t.A + t.B }))
+			obs = ro.Pipe1(ro.Zip2(raceGoSource(15, true), raceGoSource(10, false)), ro.Map(func(t lo.Tuple2[int, int]) int { return t.A + t.B }))
 		case 1:
-			obs = ro.Pipe1(ro.Zip3(goSource(8, true), goSource(8, false), goSource(-1, true)), ro.Map(func(t lo.Tuple3[int, int, int]) int { return t.A }))
+			obs = ro.Pipe1(ro.Zip3(raceGoSource(8, true), raceGoSource(8, false), raceGoSource(-1, true)), ro.Map(func(t lo.Tuple3[int, int, int]) int { return t.A }))
 		default:
-			obs = ro.Pipe1(ro.Zip(goSource(8, true), goSource(8, false), goSource(12, true)), ro.Map(func(t []int) int { return len(t) }))
+			obs = ro.Pipe1(ro.Zip(raceGoSource(8, true), raceGoSource(8, false), raceGoSource(12, true)), ro.Map(func(t []int) int { return len(t) }))
 		}
-		sub := obs.Subscribe(sinkOf[int]())
-		pause(spin(r))
+		sub := obs.Subscribe(raceSinkOf[int]())
+		racePause(raceSpin(r))
 		if r.Intn(2) == 0 {
 			sub.Unsubscribe()
 		} else {
-			waitSub(sub)
+			raceWaitSub(sub)
 		}
 	}
 }
 
-func waitSub(s ro.Subscription) {
+func raceWaitSub(s ro.Subscription) {
 	ch := make(chan struct{})
 	go func() { s.Wait(); close(ch) }()
 	select {
@@ -577,18 +583,18 @@ func raceSc_combineLatest(r *rand.Rand, rounds int) {
 		var obs ro.Observable[int]
 		switch r.Intn(3) {
 		case 0:
-			obs = ro.Pipe1(ro.CombineLatest2(goSource(15, true), goSource(10, false)), ro.Map(func(t lo.Tuple2[int, int]) int { return t.A + t.B }))
+			obs = ro.Pipe1(ro.CombineLatest2(raceGoSource(15, true), raceGoSource(10, false)), ro.Map(func(t lo.Tuple2[int, int]) int { return t.A + t.B }))
 		case 1:
-			obs = ro.Pipe1(ro.CombineLatest3(goSource(8, true), goSource(8, false), goSource(8, true)), ro.Map(func(t lo.Tuple3[int, int, int]) int { return t.A }))
+			obs = ro.Pipe1(ro.CombineLatest3(raceGoSource(8, true), raceGoSource(8, false), raceGoSource(8, true)), ro.Map(func(t lo.Tuple3[int, int, int]) int { return t.A }))
 		default:
-			obs = ro.Pipe2(ro.Just(goSource(8, true), goSource(8, false), goSource(8, true)), ro.CombineLatestAll[int](), ro.Map(func(t []int) int { return len(t) }))
+			obs = ro.Pipe2(ro.Just(raceGoSource(8, true), raceGoSource(8, false), raceGoSource(8, true)), ro.CombineLatestAll[int](), ro.Map(func(t []int) int { return len(t) }))
 		}
-		sub := obs.Subscribe(sinkOf[int]())
-		pause(spin(r))
+		sub := obs.Subscribe(raceSinkOf[int]())
+		racePause(raceSpin(r))
 		if r.Intn(2) == 0 {
 			sub.Unsubscribe()
 		} else {
-			waitSub(sub)
+			raceWaitSub(sub)
 		}
 	}
 }
@@ -598,31 +604,31 @@ func raceSc_merge(r *rand.Rand, rounds int) {
 		var obs ro.Observable[int]
 		switch r.Intn(3) {
 		case 0:
-			obs = ro.Merge(goSource(10, true), goSource(10, false), goSource(10, true))
+			obs = ro.Merge(raceGoSource(10, true), raceGoSource(10, false), raceGoSource(10, true))
 		case 1:
-			obs = ro.Pipe1(goSource(6, true), ro.MergeMap(func(v int) ro.Observable[int] { return goSource(3, false) }))
+			obs = ro.Pipe1(raceGoSource(6, true), ro.MergeMap(func(v int) ro.Observable[int] { return raceGoSource(3, false) }))
 		default:
-			obs = ro.Pipe1(goSource(10, true), ro.MergeWith(goSource(5, false)))
+			obs = ro.Pipe1(raceGoSource(10, true), ro.MergeWith(raceGoSource(5, false)))
 		}
-		sub := obs.Subscribe(sinkOf[int]())
-		pause(spin(r))
+		sub := obs.Subscribe(raceSinkOf[int]())
+		racePause(raceSpin(r))
 		if r.Intn(2) == 0 {
 			sub.Unsubscribe()
 		} else {
-			waitSub(sub)
+			raceWaitSub(sub)
 		}
 	}
 }
 
 func raceSc_race(r *rand.Rand, rounds int) {
 	for i := 0; i < rounds; i++ {
-		obs := ro.Race(goSource(5, true), goSource(5, false), goSource(5, true))
-		sub := obs.Subscribe(sinkOf[int]())
-		pause(spin(r))
+		obs := ro.Race(raceGoSource(5, true), raceGoSource(5, false), raceGoSource(5, true))
+		sub := obs.Subscribe(raceSinkOf[int]())
+		racePause(raceSpin(r))
 		if r.Intn(2) == 0 {
 			sub.Unsubscribe()
 		} else {
-			waitSub(sub)
+			raceWaitSub(sub)
 		}
 	}
 }
@@ -631,31 +637,31 @@ func raceSc_bufferWhen(r *rand.Rand, rounds int) {
 	for i := 0; i < rounds; i++ {
 		var obs ro.Observable[[]int]
 		if r.Intn(2) == 0 {
-			obs = ro.Pipe1(goSource(30, true), ro.BufferWhen[int](goSource(6, true)))
+			obs = ro.Pipe1(raceGoSource(30, true), ro.BufferWhen[int](raceGoSource(6, true)))
 		} else {
-			obs = ro.Pipe1(goSource(200, true), ro.BufferWithTimeOrCount[int](4, 200*time.Microsecond))
+			obs = ro.Pipe1(raceGoSource(200, true), ro.BufferWithTimeOrCount[int](4, 200*time.Microsecond))
 		}
-		sub := obs.Subscribe(sinkOf[[]int]())
-		pause(spin(r))
+		sub := obs.Subscribe(raceSinkOf[[]int]())
+		racePause(raceSpin(r))
 		if r.Intn(2) == 0 {
 			sub.Unsubscribe()
 		} else {
-			waitSub(sub)
+			raceWaitSub(sub)
 		}
 	}
 }
 
 func raceSc_windowWhen(r *rand.Rand, rounds int) {
 	for i := 0; i < rounds; i++ {
-		obs := ro.Pipe1(goSource(30, true), ro.WindowWhen[int](goSource(6, true)))
+		obs := ro.Pipe1(raceGoSource(30, true), ro.WindowWhen[int](raceGoSource(6, true)))
 		sub := obs.Subscribe(ro.NewObserver(
-			func(w ro.Observable[int]) { w.Subscribe(sinkOf[int]()) },
+			func(w ro.Observable[int]) { w.Subscribe(raceSinkOf[int]()) },
 			func(error) {}, func() {}))
-		pause(spin(r))
+		racePause(raceSpin(r))
 		if r.Intn(2) == 0 {
 			sub.Unsubscribe()
 		} else {
-			waitSub(sub)
+			raceWaitSub(sub)
 		}
 	}
 }
@@ -664,16 +670,16 @@ func raceSc_sampleThrottle(r *rand.Rand, rounds int) {
 	for i := 0; i < rounds; i++ {
 		var obs ro.Observable[int]
 		if r.Intn(2) == 0 {
-			obs = ro.Pipe1(goSource(40, true), ro.SampleWhen[int](goSource(8, true)))
+			obs = ro.Pipe1(raceGoSource(40, true), ro.SampleWhen[int](raceGoSource(8, true)))
 		} else {
-			obs = ro.Pipe1(goSource(40, true), ro.ThrottleWhen[int](goSource(8, true)))
+			obs = ro.Pipe1(raceGoSource(40, true), ro.ThrottleWhen[int](raceGoSource(8, true)))
 		}
-		sub := obs.Subscribe(sinkOf[int]())
-		pause(spin(r))
+		sub := obs.Subscribe(raceSinkOf[int]())
+		racePause(raceSpin(r))
 		if r.Intn(2) == 0 {
 			sub.Unsubscribe()
 		} else {
-			waitSub(sub)
+			raceWaitSub(sub)
 		}
 	}
 }
@@ -682,16 +688,16 @@ func raceSc_takeSkipUntil(r *rand.Rand, rounds int) {
 	for i := 0; i < rounds; i++ {
 		var obs ro.Observable[int]
 		if r.Intn(2) == 0 {
-			obs = ro.Pipe1(goSource(-1, true), ro.TakeUntil[int](goSource(1+r.Intn(3), true)))
+			obs = ro.Pipe1(raceGoSource(-1, true), ro.TakeUntil[int](raceGoSource(1+r.Intn(3), true)))
 		} else {
-			obs = ro.Pipe1(goSource(30, true), ro.SkipUntil[int](goSource(1+r.Intn(3), true)))
+			obs = ro.Pipe1(raceGoSource(30, true), ro.SkipUntil[int](raceGoSource(1+r.Intn(3), true)))
 		}
-		sub := obs.Subscribe(sinkOf[int]())
-		pause(spin(r))
+		sub := obs.Subscribe(raceSinkOf[int]())
+		racePause(raceSpin(r))
 		if r.Intn(3) == 0 {
 			sub.Unsubscribe()
 		} else {
-			waitSub(sub)
+			raceWaitSub(sub)
 		}
 	}
 }
@@ -700,26 +706,26 @@ func raceSc_takeSkipUntil(r *rand.Rand, rounds int) {
 
 func raceSc_delay(r *rand.Rand, rounds int) {
 	for i := 0; i < rounds; i++ {
-		obs := ro.Pipe1(goSource(10, true), ro.Delay[int](time.Duration(50+r.Intn(200))*time.Microsecond))
-		sub := obs.Subscribe(sinkOf[int]())
+		obs := ro.Pipe1(raceGoSource(10, true), ro.Delay[int](time.Duration(50+r.Intn(200))*time.Microsecond))
+		sub := obs.Subscribe(raceSinkOf[int]())
 		if r.Intn(2) == 0 {
-			pause(spin(r))
+			racePause(raceSpin(r))
 			sub.Unsubscribe()
 		} else {
-			waitSub(sub)
+			raceWaitSub(sub)
 		}
 	}
 }
 
 func raceSc_timeout(r *rand.Rand, rounds int) {
 	for i := 0; i < rounds; i++ {
-		obs := ro.Pipe1(goSource(10, true), ro.Timeout[int](time.Duration(20+r.Intn(300))*time.Microsecond))
-		sub := obs.Subscribe(sinkOf[int]())
+		obs := ro.Pipe1(raceGoSource(10, true), ro.Timeout[int](time.Duration(20+r.Intn(300))*time.Microsecond))
+		sub := obs.Subscribe(raceSinkOf[int]())
 		if r.Intn(2) == 0 {
-			pause(spin(r))
+			racePause(raceSpin(r))
 			sub.Unsubscribe()
 		} else {
-			waitSub(sub)
+			raceWaitSub(sub)
 		}
 	}
 }
@@ -728,23 +734,23 @@ func raceSc_observeOn(r *rand.Rand, rounds int) {
 	for i := 0; i < rounds; i++ {
 		var obs ro.Observable[int]
 		if r.Intn(2) == 0 {
-			obs = ro.Pipe1(goSource(20, true), ro.ObserveOn[int](1+r.Intn(4)))
+			obs = ro.Pipe1(raceGoSource(20, true), ro.ObserveOn[int](1+r.Intn(4)))
 		} else {
 			obs = ro.Pipe1(ro.Just(1, 2, 3, 4, 5), ro.ObserveOn[int](2))
 		}
-		sub := obs.Subscribe(sinkOf[int]())
+		sub := obs.Subscribe(raceSinkOf[int]())
 		if r.Intn(2) == 0 {
-			pause(spin(r))
+			racePause(raceSpin(r))
 			sub.Unsubscribe()
 		} else {
-			waitSub(sub)
+			raceWaitSub(sub)
 		}
 	}
 }
 
 func raceSc_toChannel(r *rand.Rand, rounds int) {
 	for i := 0; i < rounds; i++ {
-		obs := ro.Pipe1(goSource(400, true), ro.ToChannel[int](r.Intn(3)))
+		obs := ro.Pipe1(raceGoSource(400, true), ro.ToChannel[int](r.Intn(3)))
 		var wg sync.WaitGroup
 		sub := obs.Subscribe(ro.NewObserver(
 			func(ch <-chan ro.Notification[int]) {
@@ -758,27 +764,27 @@ func raceSc_toChannel(r *rand.Rand, rounds int) {
 			func(error) {}, func() {}))
 		if r.Intn(2) == 0 {
 			time.Sleep(time.Millisecond) // ToChannel subscribes to its source 1 ms after being subscribed
-			pause(spin(r))
+			racePause(raceSpin(r))
 			sub.Unsubscribe()
 		} else {
-			waitSub(sub)
+			raceWaitSub(sub)
 		}
-		waitWG(&wg)
+		raceWaitWG(&wg)
 	}
 }
 
 func raceSc_intervalTimer(r *rand.Rand, rounds int) {
 	for i := 0; i < rounds; i++ {
 		obs := ro.Pipe1(ro.Interval(50*time.Microsecond), ro.Take[int64](int64(2+r.Intn(4))))
-		sub := obs.Subscribe(sinkOf[int64]())
-		sub2 := ro.Timer(100 * time.Microsecond).Subscribe(sinkOf[time.Duration]())
+		sub := obs.Subscribe(raceSinkOf[int64]())
+		sub2 := ro.Timer(100 * time.Microsecond).Subscribe(raceSinkOf[time.Duration]())
 		if r.Intn(2) == 0 {
-			pause(spin(r))
+			racePause(raceSpin(r))
 			sub.Unsubscribe()
 			sub2.Unsubscribe()
 		} else {
-			waitSub(sub)
-			waitSub(sub2)
+			raceWaitSub(sub)
+			raceWaitSub(sub2)
 		}
 	}
 }
